@@ -83,13 +83,15 @@ def unit(v, gran):
     return [(v >> (8 * j)) & 0xFF for j in range(gran)]
 
 
-def render(beh, dname, obs=None):
+def render(beh, dname, obs=None, cpu_stmt=True):
     """TLC behaviour -> (source, expected image as sorted list of (segno, byteaddr, byte)).
     obs: transition-cover record: where an observer statement after the last transition must land."""
     d = DIAL[dname]
     g = d["gran"]
     mod = 251 if g == 1 else 65521
-    lines = ["\tcpu %s" % d["cpu"]]
+    # cpu_stmt=False: the target comes from the command line (-cpu), so the initial CODE segment is never
+    # entered through a CPU/SEGMENT statement (as.c WriteCode has to mark it used by itself)
+    lines = ["\tcpu %s" % d["cpu"]] if cpu_stmt else []
     exp = []
     table = []          # values exported through the trailing table
     open_structs = []
@@ -185,10 +187,11 @@ def replay_generated(rep, bld, tier):
     r.shuffle(behs)
     behs = behs[:1000 if tier == "quick" else 40000]
     jobs = []
-    for beh in behs:
+    for bi, beh in enumerate(behs):
         for dname in DIAL:
-            src, exp, table = render(beh, dname)
-            jobs.append((beh, dname, src, exp, table))
+            cs = (bi % 2 == 0)
+            src, exp, table = render(beh, dname, cpu_stmt=cs)
+            jobs.append((beh, dname + ("" if cs else ":-cpu"), src, exp, table))
     ncover = 0
     for mode in ("stack", "struct", "all"):
         cfg = "AddrBook_Cover%s_%s.cfg" % ("" if tier == "quick" else "T", mode)
@@ -199,11 +202,14 @@ def replay_generated(rep, bld, tier):
                 continue
             ncover += 1
             for dname in DIAL:
-                src, exp, table = render(o["h"], dname, obs=o)
-                jobs.append((o["h"], dname, src, exp, table))
+                cs = (ncover % 2 == 0)
+                src, exp, table = render(o["h"], dname, obs=o, cpu_stmt=cs)
+                jobs.append((o["h"], dname + ("" if cs else ":-cpu"), src, exp, table))
     rep.part("generation", distinct_simulated=len(seen), simulated_replayed=len(behs), transition_cover=ncover)
     with Phase("replay %d generated programs" % len(jobs)):
-        results = aslrun.assemble_many(bld, [{"sources": {"a.asm": j[2]}, "opts": ["-q"]} for j in jobs])
+        results = aslrun.assemble_many(bld, [{"sources": {"a.asm": j[2]},
+                                              "opts": ["-q"] + (["-cpu", DIAL[j[1].split(":")[0]]["cpu"]] if ":" in j[1] else [])}
+                                             for j in jobs])
     for (beh, dname, src, exp, table), res in zip(jobs, results):
         rep.evaluated()
         rep.distinct(src, len(set(st["k"] for st in beh)) >= 3)
